@@ -141,6 +141,7 @@ def make_runner(mode, shape=DEF_SHAPES[0], node='FunctionDef', kind='function', 
         env['r'] = r
         env.pop('forger_returned', None)
         env.pop('af_ast_returned', None)
+        env.pop('kwonly_sig', None)
         objs = []
         env['objs'] = objs
         env['ast_pre'] = []
@@ -178,7 +179,14 @@ def make_runner(mode, shape=DEF_SHAPES[0], node='FunctionDef', kind='function', 
             env['ast_pre'].append(func_ast)
             if ctx.decide(ctx.fresh('af_ast_unknown', z3.BoolSort())):
                 raise PyExc(UF_cls, ())
-            res = I.call(I.getattr_(sig, 'replace'), [], [])       # 'some upgraded signature' (a fresh object)
+            # the contract promises SOME upgraded signature: either one shaped like the def-signature, or one that
+            # cannot take any positional argument (all keyword-only) - what forwarding to a keyword-only callee gives
+            if ctx.decide(ctx.fresh('discovered_signature_is_keyword_only', z3.BoolSort())):
+                if 'kwonly_sig' not in env:
+                    env['kwonly_sig'] = mk_sig(I, ctx, 'w', (0, 0, 0, 1, 0), tracked=False, annotations=False).sig
+                res = I.call(I.getattr_(env['kwonly_sig'], 'replace'), [], [])
+            else:
+                res = I.call(I.getattr_(sig, 'replace'), [], [])       # a fresh object
             env.setdefault('af_ast_returned', []).append(res)
             return res
 
@@ -455,6 +463,9 @@ def make_runner(mode, shape=DEF_SHAPES[0], node='FunctionDef', kind='function', 
 
             def mk(interp_, clo, a, kw):
                 log.append(('_mask', list(a), list(kw)))
+                # contract of _mask (C03): ValueError exactly when the signature cannot be passed the bound arguments
+                if ctx.decide(ctx.fresh('mask_impossible', z3.BoolSort())):
+                    raise PyExc(ValueError, ('Signature cannot be passed these arguments',))
                 return Opaque('masked')
             I.call_hooks['_signatures:_mask'] = mk
             harness.run_unit(I, ma.ns['autoforwards_partial'], [par, (Opaque('outer arg'),), SymDict()], [], r)
@@ -625,8 +636,9 @@ def vcs(env, want):
                     kw_ok = (a[6] is par.keywords) if par.keywords is not None and par.keywords.items_ else (isinstance(a[6], SymDict) and not a[6].items_)
                     ok = a[0] is env['inner_sig'] and a[1] == len(env['bound']) and a[2:6] == [False, False, False, False] and kw_ok and a[7] is par
             else:
-                # only the inner discovery's UnknownForwards may surface, and only after it was consulted
-                ok = ok and not mkc and z3.is_true(z3.simplify(is_unknown_forwards(I, r.exc)))
+                # only UnknownForwards may surface (the inner discovery's, or bound arguments the callee cannot take),
+                # and only after the inner discovery was consulted
+                ok = ok and z3.is_true(z3.simplify(is_unknown_forwards(I, r.exc)))
             out.append(VC(PA_COMP.full, [], z3.BoolVal(bool(ok)), PA_COMP.props))
     elif mode == 'as_forged':
         desc, inst = env['desc'], env['inst']
